@@ -143,6 +143,15 @@ class Decorator(object):
                 continue
             v = o.val
             if v[0] == 'call' and libname(v[1]) == 'CacheInfo':
+                # CacheInfo(*stats, ...) with the 3-element literal list of __call__ is CacheInfo(stats[0], stats[1], stats[2], ...)
+                if any(a[0] == 'star' and is_bk(a[1], 'list') and a[1] in self.lists for a in v[2]):
+                    flat = []
+                    for a in v[2]:
+                        if a[0] == 'star' and is_bk(a[1], 'list') and a[1] in self.lists:
+                            flat.extend(('sub', a[1], C(i)) for i in range(len(self.lists[a[1]][1])))
+                        else:
+                            flat.append(a)
+                    v = (v[0], v[1], tuple(flat)) + tuple(v[3:])
                 self.info_call = v
                 for a in v[2][:3]:
                     if a[0] == 'sub' and is_bk(a[1], 'list'):
